@@ -312,7 +312,9 @@ func Walk(v Visitor, node ast.Node) {
 	case *ast.Using:
 		Walk(v, n.Statement)
 		Walk(v, n.Type)
-		Walk(v, n.Body)
+		if n.Body != nil {
+			Walk(v, n.Body)
+		}
 
 	case *ast.Var:
 		for _, ident := range n.Lhs {
